@@ -8,6 +8,7 @@ package proxy
 // GossipObs (clause realleave).
 
 import (
+	"go.temporal.io/server/client/history"
 	"encoding/json"
 	"fmt"
 	"os"
@@ -29,6 +30,10 @@ type vgrNode struct {
 	addr string
 }
 
+// vgrFast: failure detection within tens of milliseconds (the leave scenarios need a departed node to be noticed quickly). The
+// claim scenarios run with memberlist's own LAN timing: nobody is declared dead because the machine is busy.
+var vgrFast = true
+
 func vgrStart(t *testing.T, net *memberlist.MockNetwork, name string, joinAddrs []string) *vgrNode {
 	cfg := &config.MemberlistConfig{NodeName: name, BindAddr: "127.0.0.1", BindPort: 0, ProxyAddresses: map[string]string{}, JoinAddrs: joinAddrs}
 	sm := NewShardManager(cfg, config.ShardCountConfig{Mode: config.ShardCountRouting, LocalShardCount: 2, RemoteShardCount: 2},
@@ -42,12 +47,14 @@ func vgrStart(t *testing.T, net *memberlist.MockNetwork, name string, joinAddrs 
 	mc.Events = &shardEventDelegate{manager: sm, logger: log.NewNoopLogger()}
 	mc.LogOutput = devNull{}
 	// fast failure detection so that a departed node is noticed within the probe
-	mc.ProbeInterval = 50 * time.Millisecond
-	mc.ProbeTimeout = 25 * time.Millisecond
 	mc.GossipInterval = 20 * time.Millisecond
 	mc.PushPullInterval = 0
-	mc.SuspicionMult = 1
-	mc.SuspicionMaxTimeoutMult = 1
+	if vgrFast {
+		mc.ProbeInterval = 50 * time.Millisecond
+		mc.ProbeTimeout = 25 * time.Millisecond
+		mc.SuspicionMult = 1
+		mc.SuspicionMaxTimeoutMult = 1
+	}
 	mc.DisableTcpPings = true
 	ml, err := memberlist.Create(mc)
 	if err != nil {
@@ -155,6 +162,88 @@ func TestVerifGossipRealLeave(t *testing.T) {
 				"peersBefore": peersBefore, "left": left, "forgotten": gone, "responsive": responsive, "rejoin": rejoin && sawD,
 				"peersAfter": vgrPeers(a)})
 			for _, n := range append(nodes, d) {
+				n := n
+				_ = vgrWithin(time.Second, func() { _ = n.ml.Shutdown() })
+			}
+		}
+	}
+}
+
+// TestVerifGossipRealClaim: the REAL announcement path (broadcastShardChange -> memberlist -> NotifyMsg, nothing delivered by the
+// harness): instance a claims a shard, instance b claims the same shard later; within the bound only b - the newest claim - owns
+// it. Variants: a's claim was / was not yet part of a full state b merged; a third instance looks on. One record per scenario.
+func TestVerifGossipRealClaim(t *testing.T) {
+	outp := os.Getenv("VERIF_OUT")
+	if outp == "" {
+		t.Skip("VERIF_OUT not set")
+	}
+	f, err := os.Create(outp)
+	if err != nil {
+		t.Fatal(err)
+	}
+	defer f.Close()
+	enc := json.NewEncoder(f)
+	shard := history.ClusterShardID{ClusterID: 2, ShardID: 1}
+	id := 0
+	vgrFast = false
+	defer func() { vgrFast = true }()
+	for _, variant := range []string{"claim-after-join", "claim-before-join"} {
+		for _, third := range []bool{false, true} {
+			id++
+			net := &memberlist.MockNetwork{}
+			a := vgrStart(t, net, "a", nil)
+			b := vgrStart(t, net, "b", nil)
+			nodes := []*vgrNode{a, b}
+			if variant == "claim-before-join" {
+				a.sm.RegisterShard(shard)
+			}
+			joined := vgrWithin(5*time.Second, func() { _, _ = b.ml.Join([]string{a.addr}) })
+			if third {
+				c := vgrStart(t, net, "c", nil)
+				nodes = append(nodes, c)
+				joined = joined && vgrWithin(5*time.Second, func() { _, _ = c.ml.Join([]string{a.addr}) })
+			}
+			// "instances that know each other": periodic push-pull is off (the scenario controls what has been merged), so every
+			// instance exchanges its full state with every other one once
+			for _, x := range nodes {
+				for _, y := range nodes {
+					if x != y {
+						x, y := x, y
+						joined = joined && vgrWithin(5*time.Second, func() { _, _ = x.ml.Join([]string{y.addr}) })
+					}
+				}
+			}
+			known := true
+			for _, x := range nodes {
+				known = known && len(vgrPeers(x)) == len(nodes)-1
+			}
+			joined = joined && known
+			peersA, peersB := vgrPeers(a), vgrPeers(b)
+			if variant == "claim-after-join" {
+				a.sm.RegisterShard(shard)
+			}
+			time.Sleep(150 * time.Millisecond) // a's announcement has gone round (several gossip intervals)
+			claimed := vgrWithin(5*time.Second, func() { b.sm.RegisterShard(shard) })
+			owners := []string{}
+			deadline := time.Now().Add(5 * time.Second)
+			for {
+				owners = owners[:0]
+				for _, n := range nodes {
+					n.sm.mutex.RLock()
+					_, has := n.sm.localShards[ClusterShardIDtoShortString(shard)]
+					n.sm.mutex.RUnlock()
+					if has {
+						owners = append(owners, n.name)
+					}
+				}
+				if (len(owners) == 1 && owners[0] == "b") || time.Now().After(deadline) {
+					break
+				}
+				time.Sleep(10 * time.Millisecond)
+			}
+			_ = enc.Encode(map[string]interface{}{"ev": "RealClaim", "id": id, "variant": variant, "third": third, "joined": joined,
+				"claimed": claimed, "owners": owners, "peersA": peersA, "peersB": peersB})
+			for _, n := range nodes {
 				n := n
 				_ = vgrWithin(time.Second, func() { _ = n.ml.Shutdown() })
 			}
